@@ -328,8 +328,8 @@ class Policy:
                 return EXT_RAISES.get(ev.ext, [])
             if ev.attrname in ("pop", "remove"):
                 return {"pop": ["KeyError"], "remove": ["ValueError", "KeyError"]}[ev.attrname]
-            if ev.fterm is not None and ev.fterm[0] in ("var", "param", "item", "elem"):
-                return ["AnyException"]  # a callback value
+            if ev.fterm is not None and ev.fterm[0] in ("var", "param", "item", "elem", "call"):
+                return ["AnyException"]  # a callback value (parameter, stored or looked-up callable)
         return []
 
 
